@@ -30,6 +30,7 @@ func (e *Engine) ifaceContract(c *ssa.CallCommon) *Contract {
 
 func (fc *FnCtx) doCall(res ssa.Value, c *ssa.CallCommon, in ssa.Instruction) {
 	pos := in.Pos()
+	fc.keepSliceOffsets, fc.keepStrOffsets = false, false
 	prevCall := fc.curCall
 	fc.curCall = c
 	defer func() { fc.curCall = prevCall }()
@@ -54,6 +55,11 @@ func (fc *FnCtx) doCall(res ssa.Value, c *ssa.CallCommon, in ssa.Instruction) {
 		// sliceoff(ip) + 12` - so its offsets must not be normalised to a literal 0: that made the IPv4-mapped case of
 		// net.IP.To4 infeasible and a wrong SVCBIPv4Hint.pack verify)
 		rv := fc.mergeVal(res.Name(), res.Type())
+		if !fc.keepSliceOffsets {
+			// (a contract that says nothing about where its slice results lie leaves them as unconstrained as before:
+			// the representation at offset 0 is then without loss of generality, and much cheaper for the solvers)
+			normaliseOffsets(res.Type(), rv.C)
+		}
 		if !fc.keepStrOffsets {
 			// strings are immutable values: placing an unknown string at offset 0 of its array loses nothing, unless the
 			// callee's contract speaks about where the result lies (issub/start)
@@ -198,7 +204,11 @@ func (fc *FnCtx) staticCall(res ssa.Value, f *ssa.Function, c *ssa.CallCommon, i
 	}
 	con.Used = true
 	fc.keepStrOffsets = false
+	fc.keepSliceOffsets = false
 	for _, cl := range con.Ensures {
+		if strings.Contains(cl.Src, "sliceoff(") && strings.TrimSpace(cl.Src) != "sliceoff(ret0) == 0" {
+			fc.keepSliceOffsets = true // (a clause that says the result starts its own array agrees with the normal form)
+		}
 		if strings.Contains(cl.Src, "issub(") || strings.Contains(cl.Src, "start(") {
 			fc.keepStrOffsets = true
 		}
